@@ -848,8 +848,23 @@ class TrueTypeFont:
                     else:
                         for c in range(sc, ec + 1):
                             char2gid[c] = (c + idd) & 0xFFFF
+            elif fmttype == 12:
+                # 32-bit header: the six bytes read above are format, reserved
+                # and the high half of the length.
+                (_1, _2, ngroups) = cast(
+                    Tuple[int, int, int],
+                    struct.unpack(">HLL", fp.read(10)),
+                )
+                for _ in range(ngroups):
+                    (sc, ec, gid) = cast(
+                        Tuple[int, int, int],
+                        struct.unpack(">LLL", fp.read(12)),
+                    )
+                    for c in range(sc, min(ec, 0x10FFFF) + 1):
+                        char2gid[c] = gid + c - sc
             else:
-                assert False, str(("Unhandled", fmttype))
+                # Other subtable formats are not supported; use the rest.
+                log.debug("Unhandled cmap subtable format: %r", fmttype)
         if not char2gid:
             raise TrueTypeFont.CMapNotFound
         # create unicode map
